@@ -160,6 +160,38 @@ impl Prop for C13 {
                 out.push(known("a whitespace-only link is kept when its space is wrapped in a span".to_string(), "C13-span-ws-link"));
                 return out;
             }
+            // known finding: whitespace between block tags keeps an otherwise empty block container alive (it is dropped when
+            // it has no child at all): the outputs differ only in blank lines and the document has such a container
+            if c.stream.starts_with("indentation") {
+                // (the block may sit inside an element whose closing decoration then moves to a line of its own: compare the
+                // visible characters other than block prefixes, which are repeated on the extra lines)
+                let strip = |o: &Obs| -> Option<String> { o.text_lines().map(|l| l.join("").chars().filter(|ch| !ch.is_whitespace() && !matches!(ch, '>' | '*' | '#')).collect()) };
+                let dom = crate::domwalk::tree(&c.html);
+                // a block container without any visible text in its subtree (in the original or in the rewritten source)
+                let is_hollow = |d: &crate::domwalk::N| d.any(&|n| matches!(n.name(), "blockquote" | "div" | "ul" | "ol" | "dl" | "li" | "dd" | "dt" | "p" | "h1" | "h2" | "h3" | "h4" | "h5" | "h6")
+                    && !crate::domwalk::flow_text(n).iter().any(|(ch, _)| !ch.is_whitespace()));
+                let hollow = is_hollow(&dom) || is_hollow(&crate::domwalk::tree(re.as_bytes()));
+                if hollow && strip(o).is_some() && strip(o) == strip(&o2) {
+                    out.push(known(format!("whitespace next to an empty block changes the blank lines: {} vs {}", o.short(), o2.short()), "C13-ws-keeps-empty-block-alive"));
+                    return out;
+                }
+            }
+            // known finding: a span splits a text node, and the size estimate (minimum width = longest word capped by
+            // min_wrap_width) is taken per text node: at very narrow widths one form is TooNarrow and the other renders
+            if (c.stream.starts_with("span") || c.stream.starts_with("comment")) && (matches!(o, Obs::Narrow) != matches!(o2, Obs::Narrow)) {
+                out.push(known(format!("a span or comment splits a text node and changes the minimum-width estimate: {} vs {}", o.short(), o2.short()), "C13-span-splits-min-width"));
+                return out;
+            }
+            // known finding (same site as C03's stray list children): text directly inside ul/ol is rendered as one item per
+            // text node, so a comment that splits such a text node adds a bullet
+            if c.stream.starts_with("comment") {
+                let dom = crate::domwalk::tree(&c.html);
+                let stray = dom.any(&|n| matches!(n.name(), "ul" | "ol") && n.kids().iter().any(|k| match k { crate::domwalk::N::Text(t) => t.chars().any(|ch| !ch.is_whitespace()), _ => false }));
+                if stray {
+                    out.push(known(format!("a comment splits a text node that is a direct child of a list: {} vs {}", o.short(), o2.short()), "C13-stray-list-text-split"));
+                    return out;
+                }
+            }
             out.push(viol(format!("rewrite ({}) changes the output: {} vs {} for rewritten source {:?}", c.stream, o.short(), o2.short(), re)));
         }
         out
